@@ -236,9 +236,35 @@ func (ip *Interp) uniqueName(name string) string {
 	return fmt.Sprintf("%s#%d", name, n)
 }
 
+// setModelValue fixes the value of a fresh (so far unconstrained) variable in the path's model.
+func (ip *Interp) setModelValue(name string, v mval) {
+	if ip.curModel == nil {
+		return
+	}
+	m := Model{}
+	for k, x := range ip.curModel {
+		m[k] = x
+	}
+	m[name] = v
+	ip.curModel = m
+}
+
+func (ip *Interp) setDom(name string, lo, hi int64) {
+	if ip.tb.dom == nil {
+		ip.tb.dom = map[string][2]int64{}
+	}
+	ip.tb.dom[name] = [2]int64{lo, hi}
+}
+
 func (ip *Interp) newSym(name, kind string, s Sort) *Term {
 	name = ip.uniqueName(name)
 	t := ip.tb.Var(name, s)
+	switch {
+	case s.K == KBool:
+		ip.setDom(name, 0, 1)
+	case s.K == KBV && s.W <= 8:
+		ip.setDom(name, 0, int64(mask(s.W)))
+	}
 	sv := &symVar{Name: name, Kind: kind, Terms: []*Term{t}, Width: s.W}
 	ip.symvars = append(ip.symvars, sv)
 	return t
@@ -290,7 +316,17 @@ func init() {
 		// a fresh unconstrained variable: every value 0..n-1 is feasible, no solver call needed
 		k := ip.choose(n)
 		ip.addPC(ip.tb.Eq(t, ip.tb.BVConst(uint64(k), 64)))
+		ip.setModelValue(t.name, mval{bv: uint64(k)})
 		return ip.intConst(k, 64)
+	}
+	V["IntRange"] = func(ip *Interp, fn *ssa.Function, args []Value) Value {
+		lo, hi := sext(termArg(args[1]).bv, 64), sext(termArg(args[2]).bv, 64)
+		t := ip.newSym(strArg(ip, args[0]), "int", BV(64))
+		if hi-lo < 4096 && lo >= 0 {
+			ip.setDom(t.name, lo, hi)
+		}
+		ip.assume(ip.tb.And(ip.tb.BVCmp("bvsge", t, ip.tb.BVConst(uint64(lo), 64)), ip.tb.BVCmp("bvsle", t, ip.tb.BVConst(uint64(hi), 64))))
+		return t
 	}
 	V["Assume"] = func(ip *Interp, fn *ssa.Function, args []Value) Value {
 		ip.assume(termArg(args[0]))
@@ -836,6 +872,10 @@ func init() {
 		}
 		// introduce a fresh bv with to_fp(bv) == t (NaN payload unconstrained)
 		v := ip.tb.Var(ip.uniqueName("f64bits"), BV(64))
+		if ip.curModel != nil {
+			e := &evaluator{m: ip.curModel, cache: map[int]mval{}, ok: true}
+			ip.setModelValue(v.name, mval{bv: math.Float64bits(e.eval(t).f)})
+		}
 		ip.addPC(ip.tb.Or(ip.tb.And(ip.tb.FPIsNaN(t), ip.tb.FPIsNaN(ip.tb.FPFromBits(v))),
 			ip.tb.mk("=", BoolSort, 0, 0, ip.tb.FPFromBits(v), t)))
 		return v
